@@ -121,6 +121,10 @@ type unit struct {
 	Phase  int    `json:"phase"`
 	Root   string `json:"root"`
 	Prefix []int  `json:"prefix"`
+	// exactly one unit per (phase, root) judges the root state, and one per (phase, root, first op)
+	// judges the first op's block (the first unit emitted for it)
+	JudgeRoot  bool `json:"judge_root"`
+	JudgeFirst bool `json:"judge_first"`
 }
 
 type foundViolation struct {
@@ -537,7 +541,7 @@ func (x *Explorer) RunUnit(u unit, deadline time.Time) (ret *unitResult) {
 	w := x.W
 	parent := x.measures()
 	// root drift must be zero (judged once, by the unit with an all-zero prefix)
-	if allZero(u.Prefix) {
+	if u.JudgeRoot {
 		for i, o := range x.Cfg.Oracles {
 			if o.State == nil {
 				continue
@@ -562,7 +566,7 @@ func (x *Explorer) RunUnit(u unit, deadline time.Time) (ret *unitResult) {
 		}
 		dev += op.Dev
 		path = append(path, op.Name)
-		judge := allZero(u.Prefix[i+1:])
+		judge := i == len(u.Prefix)-1 || u.JudgeFirst // the last prefix op belongs to this unit alone; an earlier one is shared
 		ok, ms := x.step(op, parent, path, u.Root, u.Phase, judge)
 		if !ok {
 			alive = false
@@ -727,10 +731,12 @@ func makeUnits(cfg *Config, lib *OpLib) []unit {
 			return false
 		}
 		for _, r := range ph.Roots {
+			rootJudged := false
 			if ph.Depth <= 1 {
 				for i := 0; i < n; i++ {
 					if in(ph.First, ph.Ops[i]) {
-						us = append(us, unit{pi, r, []int{i}})
+						us = append(us, unit{pi, r, []int{i}, !rootJudged, true})
+						rootJudged = true
 					}
 				}
 				continue
@@ -739,9 +745,11 @@ func makeUnits(cfg *Config, lib *OpLib) []unit {
 				if !in(ph.First, ph.Ops[i]) {
 					continue
 				}
+				firstJudged := false
 				for j := 0; j < n; j++ {
 					if in(ph.Second, ph.Ops[j]) {
-						us = append(us, unit{pi, r, []int{i, j}})
+						us = append(us, unit{pi, r, []int{i, j}, !rootJudged, !firstJudged})
+						rootJudged, firstJudged = true, true
 					}
 				}
 			}
